@@ -65,12 +65,16 @@ type c23Case struct {
 	IBGP   bool
 	Role   bool
 	Hold   int // 0: OPEN hold 90, 1: OPEN hold 4, 2: OPEN hold 0, 3: local hold 60 ms
-	Events []c23Ev
+	// NotifFail: every NOTIFICATION bio-rd writes fails (fault injected on each connection of the case); all
+	// other writes succeed. The model does not know about it: what a session does on its way out must not
+	// depend on whether the peer still reads.
+	NotifFail bool
+	Events    []c23Ev
 }
 
 func (c c23Case) String() string {
 	var sb strings.Builder
-	fmt.Fprintf(&sb, "active=%v ibgp=%v role=%v hold=%d:", c.Active, c.IBGP, c.Role, c.Hold)
+	fmt.Fprintf(&sb, "active=%v ibgp=%v role=%v hold=%d notif-writes-fail=%v:", c.Active, c.IBGP, c.Role, c.Hold, c.NotifFail)
 	for _, e := range c.Events {
 		fmt.Fprintf(&sb, " %s", c23EvNames[e.Kind])
 		if e.Variant != 0 {
@@ -191,6 +195,19 @@ func (x *c23Runner) observe() c23Obs {
 	}
 }
 
+func (x *c23Runner) armConn() {
+	if !x.c.NotifFail {
+		return
+	}
+	x.class["notification_writes_fail"] = true
+	x.conn.SetWriteFault(func(b []byte) error {
+		if len(b) >= 19 && b[18] == kit.MsgNotification {
+			return errors.New("c23: connection reset by peer")
+		}
+		return nil
+	})
+}
+
 func (x *c23Runner) send(ev int) {
 	select {
 	case x.f.eventCh <- ev:
@@ -298,6 +315,7 @@ func (x *c23Runner) exec(e c23Ev) bool {
 			panic(c00Inconclusive{"FSM did not take the connection from conCh"})
 		}
 		x.conn = c
+		x.armConn()
 		x.env.WriteBroken = false
 	case c23EvOpenGood:
 		if !session {
@@ -449,6 +467,7 @@ func (x *c23Runner) run() string {
 		}
 	} else {
 		x.conn, x.f = x.r.c00Connect(x.peerIP)
+		x.armConn()
 		x.S = c23Post(c23SetOf(c23State{St: c23Active}), c23EvConnUp, x.env)
 		if v := x.check("inbound connection"); v != "" {
 			return v
@@ -587,6 +606,7 @@ var c23Gen = rapid.Custom(func(t *rapid.T) c23Case {
 		c.Role = rapid.IntRange(0, 2).Draw(t, "role") == 0
 	}
 	c.Hold = rapid.SampledFrom([]int{0, 0, 0, 1, 2, 3, 3}).Draw(t, "hold")
+	c.NotifFail = rapid.IntRange(0, 3).Draw(t, "notif_fail") == 0
 	// guided walk along the model so that long sequences stay meaningful, with
 	// some arbitrary events mixed in
 	s := c23State{St: c23Idle}
@@ -684,6 +704,18 @@ func c23Cases() []c23Case {
 	}
 	for _, sp := range specs {
 		cases = append(cases, c23Enumerate(sp.base, sp.prefix, sp.depth)...)
+	}
+	// every way out of OpenConfirm / Established once more with failing NOTIFICATION writes
+	for _, b := range []c23Case{{NotifFail: true}, {NotifFail: true, Hold: 1}, {NotifFail: true, Active: true, IBGP: true}} {
+		pre := toE
+		if b.Active {
+			pre = cat(toOS, toE)
+		}
+		cases = append(cases, c23Enumerate(b, pre, 1)...)
+		cases = append(cases, c23Enumerate(b, pre[:len(pre)-1], 1)...)
+		if b.Hold == 1 {
+			cases = append(cases, c23Enumerate(b, cat(pre, []int{c23EvUpdate, c23EvWait}), 0)...)
+		}
 	}
 	// hand-written sequences the main-line enumeration cannot reach (its Wait always lets the timer fire):
 	// second connection of the same FSM, time passing in OpenSent before the neighbour's OPEN arrives
